@@ -60,7 +60,8 @@ def check(case, ctx):
     try:
         S = specs.build(spec)
     except DeclarationError as e:
-        raise HarnessError(f"spec generator produced an undeclarable spec {spec!r}: {e}")
+        ctx.skip_undeclarable(None, e)
+        return
     v = values.realize(case["value"])
     try:
         expected = model.conforms(spec, v)
